@@ -461,6 +461,16 @@ func checkC19(c C19Case) error {
 		nested := fmt.Sprintf("x|slice(nul|default(%d), nul|default(%d)|abs * %d)", start, length, sign(length))
 		if c.Omit {
 			nested = fmt.Sprintf("x|slice(nul|default(%d)|round(0))", start)
+			// a length that is written and evaluates to null is an omitted length too
+			for _, spelled := range []string{fmt.Sprintf("x|slice(%d, null)", start), fmt.Sprintf("x|slice(%d, nul)", start), fmt.Sprintf("x|slice(%d, nope)", start), fmt.Sprintf("x|slice(%d, true ? null : 2)", start)} {
+				g2, err := evalJSON(spelled, ctx)
+				if err != nil {
+					return err
+				}
+				if !reflect.DeepEqual(g2, got) {
+					return fmt.Errorf("%s = %v but %s = %v on %s (a null length is an omitted length)", expr, got, spelled, g2, PrintE2(c.X))
+				}
+			}
 		}
 		two, err := evalText("{{ ("+nested+")|json_encode }}#{{ ("+nested+")|json_encode }}#{{ ("+expr+")|json_encode }}", ctx)
 		if err != nil {
